@@ -207,6 +207,10 @@ protected:
       }
     });
 
+    detail::dynamic_check(
+      chosen_trampoline != nullptr,
+      "Could not register callback: all callback slots are in use");
+
     return reinterpret_cast<T_PointerType>(chosen_trampoline);
   }
 
